@@ -53,7 +53,7 @@ def do_read(db, kind, rng=None):
     elif kind in ("children", "parents"):
         m = getattr(db, kind)
         for i in pick:
-            for lvl in (None, 1, 2):
+            for lvl in (None, 1, 2, 3, 4):
                 safe(lambda: m(i, level=lvl, order_by="start"))
             safe(lambda: m(i, featuretype="exon", limit=("chr1", 1, 10)))
     elif kind == "region":
@@ -319,5 +319,5 @@ def run(ctx):
 def replay(ctx, rec):
     raw = rec["case"].get("raw")
     if not raw:
-        return True
+        raise core.CannotReplay("no executable case in this replay file")
     return bool([f for f in run_case((raw, ctx.path("replay"))) if not f[1].startswith("note:")])
